@@ -86,6 +86,10 @@ def run(ctx, rep):
     _m2_m3(F, rep)
     m7(F, rep)
     m8(F, rep)
+    # M5: the parameters the analysis predicted with are the ones reconstruction reads back: every header field fits its width
+    # (a truncated field is "accepted and then reconstructed differently"); same rule as C08/P3
+    from . import ub
+    ub.p3(ctx, rep, rule="M5")
     from . import sib
     sib.m4(F, rep)
     # M6: the block writer that reconstruction ends in (shared with C07/W2): reference tokens keep their distance,
